@@ -71,6 +71,7 @@ Record codecs := {
   num_store : affinity -> str -> res sval;            (* sqlite: INSERT of a numeric literal that is not a plain int64
                                                          integer, or of any numeric literal into a REAL column *)
   float_of_dec : pyval -> fl;                         (* float(Decimal) *)
+  float_of_int : Z -> option fl;                      (* float(int); None = OverflowError *)
   b64enc : list N -> str;                             (* base64.b64encode(b).decode('ascii') *)
   b64dec : str -> list N;                             (* base64.b64decode *)
   pdumps : pyval -> list N;                           (* pickle.dumps(v, HIGHEST_PROTOCOL) *)
@@ -516,20 +517,26 @@ Definition v_bool (v : pyval) : res pyval :=
   | _ => Raise E_Invalid
   end.
 
-(* FloatValidator: float/int/bool as they are; __float__, then __int__ *)
+(* FloatValidator: a float as it is; an int (bool) becomes float(value), Invalid when too large;
+   then float(value.__float__()), float(value.__int__()) *)
+Definition float_int (C : codecs) (z : Z) : res pyval :=
+  match float_of_int C z with Some f => Ok (PFloat f) | None => Raise E_Invalid end.
 Definition v_float (C : codecs) (v : pyval) : res pyval :=
   match v with
-  | PNone | PFloat _ | PInt _ | PBool _ => Ok v
+  | PNone | PFloat _ => Ok v
+  | PInt z => float_int C z
+  | PBool b => float_int C (if b then 1 else 0)%Z
   | PDec _ _ _ | PDecSpecial _ _ => Ok (PFloat (float_of_dec C v))
-  | PUuid n => Ok (PInt (Z.of_N n))
+  | PUuid n => float_int C (Z.of_N n)
   | _ => Raise E_Invalid
   end.
 
 (* DateTimeValidator.from_python *)
 Definition v_datetime_from (v : pyval) : res pyval :=
   match v with
-  | PNone | PDateTime _ _ _ _ _ _ _ _ | PDate _ _ _ | PTime _ _ _ _ _ => Ok v
-  | _ => Raise E_Invalid
+  | PNone | PDateTime _ _ _ _ _ _ _ _ => Ok v
+  | PDate y m d => Ok (PDateTime y m d 0 0 0 0 false)      (* midnight of that day *)
+  | _ => Raise E_Invalid                                   (* a time has strftime but is refused *)
   end.
 (* DateTimeValidator.to_python with the column's format *)
 Definition v_datetime_to (fmt : str) (v : pyval) : res pyval :=
@@ -552,6 +559,7 @@ Definition v_date (v : pyval) : res pyval :=
       r <- v_datetime_to gen_format_date v ;;
       match r with
       | PDateTime y m d _ _ _ _ _ => Ok (PDate y m d)
+      | PTime _ _ _ _ _ => Raise E_Invalid
       | _ => Ok r
       end
   end.
@@ -566,6 +574,7 @@ Definition v_time (v : pyval) : res pyval :=
       r <- v_datetime_to gen_format_time v ;;
       match r with
       | PDateTime _ _ _ h mi s us _ => Ok (PTime h mi s us false)
+      | PDate _ _ _ => Raise E_Invalid
       | _ => Ok r
       end
   end.
@@ -580,9 +589,12 @@ Definition v_decimal_from (C : codecs) (v : pyval) : res pyval :=
   | PStr s => decimal_of_str s
   | _ => Raise E_Invalid
   end.
+Definition dec_of_int (z : Z) : pyval := PDec (Z.ltb z 0) (Z.abs_N z) 0.      (* Decimal(int) *)
 Definition v_decimal_to (C : codecs) (v : pyval) : res pyval :=
   match v with
-  | PNone | PInt _ | PBool _ | PDec _ _ _ | PDecSpecial _ _ => Ok v
+  | PNone | PDec _ _ _ | PDecSpecial _ _ => Ok v
+  | PInt z => Ok (dec_of_int z)                   (* sqlite holds an integral DECIMAL as INTEGER *)
+  | PBool b => Ok (dec_of_int (if b then 1 else 0))
   | PFloat f => decimal_of_str (frepr C f)
   | PStr s => decimal_of_str s
   | _ => Raise E_Invalid
@@ -1186,13 +1198,10 @@ Definition in_domain (T : coltype) (v : pyval) : bool :=
   end.
 
 (* ---- the trigger classes of the known findings (guards of the _partial theorems) *)
-(* a date/time object of the wrong kind, or a timezone-aware one, handed to a date/time column *)
+(* a timezone-aware datetime / time handed to a column whose converter drops tzinfo (finding tzinfo_dropped) *)
 Definition kind_ok (T : coltype) (v : pyval) : bool :=
   match T, v with
-  | (TDateTime | TTimestamp), (PDate _ _ _ | PTime _ _ _ _ _) => false
   | (TDateTime | TTimestamp), PDateTime _ _ _ _ _ _ _ tz => negb tz
-  | TDate, PTime _ _ _ _ _ => false
-  | TTime, PDate _ _ _ => false
   | TTime, PTime _ _ _ _ tz => negb tz
   | _, _ => true
   end.
@@ -1207,8 +1216,8 @@ Definition int_like (T : coltype) : bool :=
    the statement carries is stored, loaded and compared without loss.  It speaks only about
    the db value dbv = from_python(v), the converters' literal for it, the engine and the
    stdlib text<->number codecs; the harness evaluates it by asking sqlite (the known findings
-   float_literal_misrounded, int_beyond_int64, float_col_int_inexact, decimal_stored_as_real
-   are exactly the values on which it is false). *)
+   float_literal_misrounded, int_beyond_int64_stored_as_real, decimal_stored_as_real are exactly
+   the values on which it is false). *)
 Definition engine_exact (C : codecs) (T : coltype) (dbv : pyval) : bool :=
   match literal C dbv with
   | Ok lit =>
@@ -1240,13 +1249,6 @@ Definition guard_engine (C : codecs) (T : coltype) (v : pyval) : bool :=
 (* the value an in-domain write is expected to read back *)
 Definition expected (T : coltype) (v : pyval) : pyval := fk_unwrap T v.
 
-(* an integral value in a DECIMAL column comes back as an int (finding decimal_integral_read_as_int) *)
-Definition dec_integral (T : coltype) (v : pyval) : bool :=
-  real_prone T && match v with
-                  | PDec _ c e => match as_int v with Some _ => true | None => false end
-                  | _ => false
-                  end.
-
 (* ---- what the round-trip theorem assumes of the stdlib codecs, for the value at hand *)
 Definition b64_law (C : codecs) (b : list N) : Prop :=
   b64dec C (b64enc C b) = b /\ is_ascii (b64enc C b) = true /\ text_ok (b64enc C b) = true.
@@ -1268,8 +1270,8 @@ Definition codec_law (C : codecs) (T : coltype) (v : pyval) : Prop :=
   | _ => True
   end.
 (* ... and of the engine, for REAL-prone columns: the ORACLE "this value survives sqlite's
-   floating point with its type" (false exactly on the findings float_literal_misrounded,
-   decimal_stored_as_real, decimal_integral_read_as_int) *)
+   floating point with its type" (false exactly on the findings float_literal_misrounded and
+   decimal_stored_as_real) *)
 Definition engine_roundtrip (C : codecs) (T : coltype) (v : pyval) : bool :=
   if real_prone T then
     match v with
